@@ -45,7 +45,8 @@ Record state := {
   awards : amap Z; burns : amap Z; proposer : option bytes; pkrel : amap bytes;
   pp : pparams; ap : aparams; ma : modaddrs;
   acl : list (bytes * bytes); dao_owner : bytes; params_raw : amap bytes;
-  height : Z; btime : Z
+  height : Z; btime : Z;
+  haspk : amap unit                  (* accounts whose record carries a public key (genesis) *)
 }.
 
 (* setters, by hand *)
@@ -53,52 +54,52 @@ Definition set_bank (s : state) (a : amap Z) (sup : Z) : state :=
   {| accts := a; supply := sup; vals := vals s; powidx := powidx s; prevpow := prevpow s; prevtotal := prevtotal s;
      unstq := unstq s; sinfo := sinfo s; missed := missed s; awards := awards s; burns := burns s;
      proposer := proposer s; pkrel := pkrel s; pp := pp s; ap := ap s; ma := ma s; acl := acl s;
-     dao_owner := dao_owner s; params_raw := params_raw s; height := height s; btime := btime s |}.
+     dao_owner := dao_owner s; params_raw := params_raw s; height := height s; btime := btime s; haspk := haspk s |}.
 Definition set_vals (s : state) (v : amap validator) : state :=
   {| accts := accts s; supply := supply s; vals := v; powidx := powidx s; prevpow := prevpow s; prevtotal := prevtotal s;
      unstq := unstq s; sinfo := sinfo s; missed := missed s; awards := awards s; burns := burns s;
      proposer := proposer s; pkrel := pkrel s; pp := pp s; ap := ap s; ma := ma s; acl := acl s;
-     dao_owner := dao_owner s; params_raw := params_raw s; height := height s; btime := btime s |}.
+     dao_owner := dao_owner s; params_raw := params_raw s; height := height s; btime := btime s; haspk := haspk s |}.
 Definition set_powidx (s : state) (p : amap bytes) : state :=
   {| accts := accts s; supply := supply s; vals := vals s; powidx := p; prevpow := prevpow s; prevtotal := prevtotal s;
      unstq := unstq s; sinfo := sinfo s; missed := missed s; awards := awards s; burns := burns s;
      proposer := proposer s; pkrel := pkrel s; pp := pp s; ap := ap s; ma := ma s; acl := acl s;
-     dao_owner := dao_owner s; params_raw := params_raw s; height := height s; btime := btime s |}.
+     dao_owner := dao_owner s; params_raw := params_raw s; height := height s; btime := btime s; haspk := haspk s |}.
 Definition set_prev (s : state) (p : amap Z) (t : Z) : state :=
   {| accts := accts s; supply := supply s; vals := vals s; powidx := powidx s; prevpow := p; prevtotal := t;
      unstq := unstq s; sinfo := sinfo s; missed := missed s; awards := awards s; burns := burns s;
      proposer := proposer s; pkrel := pkrel s; pp := pp s; ap := ap s; ma := ma s; acl := acl s;
-     dao_owner := dao_owner s; params_raw := params_raw s; height := height s; btime := btime s |}.
+     dao_owner := dao_owner s; params_raw := params_raw s; height := height s; btime := btime s; haspk := haspk s |}.
 Definition set_unstq (s : state) (q : amap (list bytes)) : state :=
   {| accts := accts s; supply := supply s; vals := vals s; powidx := powidx s; prevpow := prevpow s; prevtotal := prevtotal s;
      unstq := q; sinfo := sinfo s; missed := missed s; awards := awards s; burns := burns s;
      proposer := proposer s; pkrel := pkrel s; pp := pp s; ap := ap s; ma := ma s; acl := acl s;
-     dao_owner := dao_owner s; params_raw := params_raw s; height := height s; btime := btime s |}.
+     dao_owner := dao_owner s; params_raw := params_raw s; height := height s; btime := btime s; haspk := haspk s |}.
 Definition set_sign (s : state) (si : amap signinfo) (mi : amap bool) : state :=
   {| accts := accts s; supply := supply s; vals := vals s; powidx := powidx s; prevpow := prevpow s; prevtotal := prevtotal s;
      unstq := unstq s; sinfo := si; missed := mi; awards := awards s; burns := burns s;
      proposer := proposer s; pkrel := pkrel s; pp := pp s; ap := ap s; ma := ma s; acl := acl s;
-     dao_owner := dao_owner s; params_raw := params_raw s; height := height s; btime := btime s |}.
+     dao_owner := dao_owner s; params_raw := params_raw s; height := height s; btime := btime s; haspk := haspk s |}.
 Definition set_queues (s : state) (aw : amap Z) (bu : amap Z) : state :=
   {| accts := accts s; supply := supply s; vals := vals s; powidx := powidx s; prevpow := prevpow s; prevtotal := prevtotal s;
      unstq := unstq s; sinfo := sinfo s; missed := missed s; awards := aw; burns := bu;
      proposer := proposer s; pkrel := pkrel s; pp := pp s; ap := ap s; ma := ma s; acl := acl s;
-     dao_owner := dao_owner s; params_raw := params_raw s; height := height s; btime := btime s |}.
+     dao_owner := dao_owner s; params_raw := params_raw s; height := height s; btime := btime s; haspk := haspk s |}.
 Definition set_misc (s : state) (pr : option bytes) (pk : amap bytes) : state :=
   {| accts := accts s; supply := supply s; vals := vals s; powidx := powidx s; prevpow := prevpow s; prevtotal := prevtotal s;
      unstq := unstq s; sinfo := sinfo s; missed := missed s; awards := awards s; burns := burns s;
      proposer := pr; pkrel := pk; pp := pp s; ap := ap s; ma := ma s; acl := acl s;
-     dao_owner := dao_owner s; params_raw := params_raw s; height := height s; btime := btime s |}.
+     dao_owner := dao_owner s; params_raw := params_raw s; height := height s; btime := btime s; haspk := haspk s |}.
 Definition set_params (s : state) (p : pparams) (a : aparams) (ac : list (bytes * bytes)) (d : bytes) (raw : amap bytes) : state :=
   {| accts := accts s; supply := supply s; vals := vals s; powidx := powidx s; prevpow := prevpow s; prevtotal := prevtotal s;
      unstq := unstq s; sinfo := sinfo s; missed := missed s; awards := awards s; burns := burns s;
      proposer := proposer s; pkrel := pkrel s; pp := p; ap := a; ma := ma s; acl := ac;
-     dao_owner := d; params_raw := raw; height := height s; btime := btime s |}.
+     dao_owner := d; params_raw := raw; height := height s; btime := btime s; haspk := haspk s |}.
 Definition set_block (s : state) (h t : Z) : state :=
   {| accts := accts s; supply := supply s; vals := vals s; powidx := powidx s; prevpow := prevpow s; prevtotal := prevtotal s;
      unstq := unstq s; sinfo := sinfo s; missed := missed s; awards := awards s; burns := burns s;
      proposer := proposer s; pkrel := pkrel s; pp := pp s; ap := ap s; ma := ma s; acl := acl s;
-     dao_owner := dao_owner s; params_raw := params_raw s; height := h; btime := t |}.
+     dao_owner := dao_owner s; params_raw := params_raw s; height := h; btime := t; haspk := haspk s |}.
 
 (* ---------- bank (x/auth/keeper/bank.go), single denom; amounts are >= 0 ---------- *)
 Definition bal (s : state) (a : bytes) : Z := match aget (accts s) a with Some b => b | None => 0 end.
@@ -139,9 +140,18 @@ Definition del_staked (s : state) (a : bytes) (v : validator) : state :=
 Definition burn_staked (s : state) (amt : Z) : option state :=
   if amt <=? 0 then None else bank_burn s (m_pool (ma s)) amt.
 
-(* ForceValidatorUnstake (as repaired: nothing to burn when the stake is already 0) *)
+(* deleteUnstakingValidator: drop the address from its completion-time slot (delete an emptied slot) *)
+Definition del_unstaking (s : state) (a : bytes) (v : validator) : state :=
+  let q := match aget (unstq s) (time_key (v_unstime v)) with Some l => l | None => [] end in
+  let q' := filter (fun x => negb (beqb x a)) q in
+  set_unstq s (match q' with [] => adel (unstq s) (time_key (v_unstime v))
+                           | _ => aset (unstq s) (time_key (v_unstime v)) q' end).
+
+(* ForceValidatorUnstake (as repaired: an unstaking validator leaves the queue; nothing to burn
+   when the stake is already 0) *)
 Definition force_unstake (s : state) (a : bytes) (v : validator) : option state :=
-  let s1 := del_staked s a v in
+  let s0 := del_staked s a v in
+  let s1 := if (v_status v =? 1)%N then del_unstaking s0 a v else s0 in
   match (if 0 <? v_tokens v then burn_staked s1 (v_tokens v) else Some s1) with
   | None => None
   | Some s2 => Some (put_val s2 a (with_status (with_tokens v 0) 0))
@@ -398,10 +408,7 @@ Definition update_tm_validators (s : state) : option (state * list update) :=
 (* unstakeAllMatureValidators: queue entries with time <= block time, in key order *)
 Definition finish_unstaking (s : state) (a : bytes) (v : validator) : option state :=
   (* deleteUnstakingValidator, coinsFromStakedToUnstaked, record, DeleteValidator *)
-  let q := match aget (unstq s) (time_key (v_unstime v)) with Some l => l | None => [] end in
-  let q' := filter (fun x => negb (beqb x a)) q in
-  let s1 := set_unstq s (match q' with [] => adel (unstq s) (time_key (v_unstime v))
-                                     | _ => aset (unstq s) (time_key (v_unstime v)) q' end) in
+  let s1 := del_unstaking s a v in
   if negb (is_int64 (v_tokens v)) then None else
   match bank_send s1 (m_pool (ma s1)) a (v_tokens v) with
   | None => None
@@ -585,8 +592,12 @@ Definition required_fee (s : state) (gov_fee : Z) (m : msg) : Z :=
 Inductive dres := DOk (s : state) | DRejected (s : state) | DHandlerErr (s : state).
 Definition ante (s : state) (t : tx) : option state :=         (* None = rejected, state untouched *)
   if a_max_memo (ap s) <? t_memo_len t then None
-  else match t_attached t with
-  | None => None                                   (* no key in the signature, none stored in accounts *)
+  else match (match t_attached t with
+              | Some ka => Some ka
+              | None => match aget (haspk s) (msg_signer (t_msg t)) with   (* key looked up from the account *)
+                        | Some _ => Some (msg_signer (t_msg t)) | None => None end
+              end) with
+  | None => None
   | Some ka =>
     if negb (beqb ka (msg_signer (t_msg t))) then None
     else if t_in_index t then None
@@ -614,3 +625,22 @@ Definition k_award (s : state) (a : bytes) (amt : Z) : state :=
 Definition k_burn (s : state) (a : bytes) (sev : Z) : state :=
   let cur := match aget (burns s) a with Some x => x | None => 0 end in
   set_queues s (awards s) (aset (burns s) a (cur + sev)).
+
+(* pos.InitGenesis for staked, unjailed genesis validators (height 0), then gov's DAO mint *)
+Definition genesis_validator (s : state) (g : bytes * bytes * Z) : state :=
+  let '(a, pk, tokens) := g in
+  let v := {| v_pk := pk; v_jailed := false; v_status := 2; v_tokens := tokens; v_unstime := 0 |} in
+  let s1 := set_staked (put_val s a v) a v in
+  let s2 := set_sign s1 (aset (sinfo s1) a {| si_start := 0; si_offset := 0; si_jailed_until := 0;
+                                               si_tomb := false; si_missed := 0 |}) (missed s1) in
+  set_misc s2 (proposer s2) (aset (pkrel s2) a pk).
+Definition init_chain (s0 : state) (gvals : list (bytes * bytes * Z)) (dao_tokens : Z) : option (state * list update) :=
+  let s1 := fold_left genesis_validator gvals s0 in
+  match update_tm_validators s1 with
+  | None => None
+  | Some (s2, ups) =>
+    match bank_mint s2 (m_dao (ma s2)) dao_tokens with
+    | Some s3 => Some (s3, ups)
+    | None => Some (s2, ups)
+    end
+  end.
